@@ -117,7 +117,12 @@ def gen_malformed_config(rng):
     cfg = gen_config(rng)
     t = rng.choice(cfg["targets"])
     kind = rng.choice(["trailing", "dot", "dup", "double", "leading", "useslash"])
-    if kind == "trailing": t["path"] = t["path"] + "/"
+    if kind == "trailing":
+        # a directory written with a trailing slash, with something nested in it and something else using a path inside it
+        base = t["path"]; t["path"] = base + "/"
+        if rng.random() < 0.7 and base + "/sub" not in [x["path"] for x in cfg["targets"]]: cfg["targets"].append({"path": base + "/sub"})
+        others = [x for x in cfg["targets"] if x is not t and not x["path"].startswith(base + "/")]
+        if others and rng.random() < 0.7: rng.choice(others).setdefault("uses", []).append(base + "/" + rng.choice(FILES))
     elif kind == "dot": t["path"] = "./" + t["path"]
     elif kind == "dup": cfg["targets"].append({"path": t["path"]})
     elif kind == "double": t["path"] = t["path"].replace("/", "//", 1) if "/" in t["path"] else t["path"] + "//z"
